@@ -577,6 +577,12 @@ def literal_variants(rng, body):
     """non-canonical (or invalid) spellings of a canonical value: sign, leading / trailing zeros, blanks, bit order, identityref prefixes"""
     import re
     v = []
+    if re.fullmatch(r"-?\d+", body) and len(body) < 25 and rng.random() < 0.45:
+        # spellings whose value depends on the number base the store is asked to use (data: base 10 only)
+        n = int(body)
+        sg, a = ("-" if n < 0 else ""), abs(n)
+        return rng.choice([sg + "0x%x" % a, sg + "0X%X" % a, sg + "0%o" % a, sg + "0" + str(a), sg + "00" + str(a), sg + "0" + str(a) + "0", "+" + str(a) if n >= 0 else "-0" + str(a),
+                           sg + "0x0%x" % a, sg + "010", sg + "0x10", sg + "08"])
     if re.fullmatch(r"-?\d+", body):
         neg, digits = body.startswith("-"), body.lstrip("-")
         v += [("-0" if neg else "+0") + digits, ("-" if neg else "+") + digits if not neg else "-00" + digits, "0" + body if not neg else body, body + " ", " " + body,
